@@ -269,8 +269,8 @@ def esc_attr(v, quote='"'):
     return v.replace(quote, "&quot;" if quote == '"' else "&apos;")
 
 
-def to_mjml(n, indent=None, depth=0, quote='"', crlf=False, selfclose=True, attr_order=None):
-    """Print a tree. indent=None: compact; attr_order: None (insertion), "rev", "sorted"."""
+def to_mjml(n, indent=None, depth=0, quote='"', crlf=False, selfclose=True, attr_order=None, attr_lines=False):
+    """Print a tree. indent=None: compact; attr_order: None (insertion), "rev", "sorted"; attr_lines: one attribute per line inside the start tag."""
     nl = ("\r\n" if crlf else "\n") if indent is not None else ""
     pad = (" " * (indent * depth)) if indent is not None else ""
     items = list(n["attrs"].items())
@@ -278,7 +278,8 @@ def to_mjml(n, indent=None, depth=0, quote='"', crlf=False, selfclose=True, attr
         items.reverse()
     elif attr_order == "sorted":
         items.sort()
-    at = "".join(" %s=%s%s%s" % (k, quote, esc_attr(v, quote), quote) for k, v in items)
+    sep = (nl + pad + "    ") if (attr_lines and indent is not None) else " "
+    at = "".join("%s%s=%s%s%s" % (sep, k, quote, esc_attr(v, quote), quote) for k, v in items)
     tag = n["tag"]
     if not n["children"] and n.get("text") is None:
         if selfclose:
@@ -286,7 +287,7 @@ def to_mjml(n, indent=None, depth=0, quote='"', crlf=False, selfclose=True, attr
         return "%s<%s%s></%s>%s" % (pad, tag, at, tag, nl)
     if n.get("text") is not None and not n["children"]:
         return "%s<%s%s>%s</%s>%s" % (pad, tag, at, n["text"], tag, nl)
-    inner = "".join(to_mjml(c, indent, depth + 1, quote, crlf, selfclose, attr_order) for c in n["children"])
+    inner = "".join(to_mjml(c, indent, depth + 1, quote, crlf, selfclose, attr_order, attr_lines) for c in n["children"])
     return "%s<%s%s>%s%s%s</%s>%s" % (pad, tag, at, nl, inner, pad, tag, nl)
 
 
@@ -337,3 +338,20 @@ def shrink_tree(doc, fails, budget=150):
                 else:
                     n["attrs"][a] = saved
     return doc
+
+
+def with_inline_classes(d, rng):
+    """add an <mj-style inline="inline"> block and make components / author HTML refer to its classes (in place)"""
+    for n in walk(d):
+        if n["tag"] in ("mj-text", "mj-button", "mj-section", "mj-column", "mj-image", "mj-divider", "mj-wrapper", "mj-hero", "mj-group", "mj-table") and rng.random() < 0.4:
+            n["attrs"]["css-class"] = rng.choice(["k", "k2", "k k2", "zz"])
+        if n["tag"] == "mj-text" and rng.random() < 0.4:
+            n["text"] = "".join(rng.choice(['<p class="k">', "t", "</p>", "<span class='k2' style='a:b'>", "</span>", "<b>", "</b>"]) for _ in range(rng.randint(1, 5)))
+        if n["tag"] == "mj-table" and rng.random() < 0.6:
+            n["text"] = '<tr><td class="k" style="padding:4px">c1</td><td class="k2">c2</td></tr>'
+    head = next((c for c in d["children"] if c["tag"] == "mj-head"), None)
+    if head is None:
+        head = {"tag": "mj-head", "attrs": {}, "children": [], "text": None}
+        d["children"].insert(0, head)
+    head["children"].append({"tag": "mj-style", "attrs": {"inline": "inline"}, "children": [], "text": "\n.k{color:red}\n.k2 { font-size:9px; color:blue }\n.k,.zz{margin:0}\n"})
+    return d
